@@ -5,8 +5,33 @@
 // file, in increasing non-overlapping order.
 use harper_core::{Document, TokenKind};
 
+// progress watchdog (C01: never hangs): every input takes milliseconds; an input that is still being
+// processed after 20 s is reported as non-terminating and the test process is ended
+#[allow(dead_code)]
+fn rac_watchdog(name: &'static str) -> std::sync::Arc<std::sync::Mutex<Option<(u64, String)>>> {
+    let cur = std::sync::Arc::new(std::sync::Mutex::new(None::<(u64, String)>));
+    let c2 = cur.clone();
+    std::thread::spawn(move || {
+        let mut last: Option<(u64, String)> = None;
+        let mut since = std::time::Instant::now();
+        loop {
+            std::thread::sleep(std::time::Duration::from_secs(1));
+            let c = c2.lock().unwrap().clone();
+            if c != last {
+                last = c;
+                since = std::time::Instant::now();
+            } else if last.is_some() && since.elapsed().as_secs() >= 20 {
+                println!("RAC-CEX {} {{\"text\": {:?}, \"why\": \"did not terminate within 20 s (other inputs take milliseconds)\"}}", name, last.unwrap().1);
+                std::process::exit(1);
+            }
+        }
+    });
+    cur
+}
+
 #[test]
 fn rac_lhs_frontend() {
+    let wd = rac_watchdog("lhs_frontend");
     let frags = ["Some introduction é.\n", "\n", "> main = print 1\n", "\u{3000}\n", "\u{00A0} \n", "\\begin{code}\nx = 1\n\\end{code}\n", "The closing words are here.\n", ">\n", " \n", "> é = 2"];
     let mut texts: Vec<String> = vec![String::new()];
     let mut frontier: Vec<String> = vec![String::new()];
@@ -24,6 +49,7 @@ fn rac_lhs_frontend() {
     let mut cases = 0u64;
     let mut nontrivial = 0u64;
     for t in &texts {
+        *wd.lock().unwrap() = Some((cases, t.clone()));
         let n = t.chars().count();
         let r = std::panic::catch_unwind(std::panic::AssertUnwindSafe(|| {
             let doc = Document::new_curated(t, &parser);
@@ -50,5 +76,6 @@ fn rac_lhs_frontend() {
             panic!("literate haskell front-end contract violated");
         }
     }
+    *wd.lock().unwrap() = None;
     println!("RAC-OK lhs_frontend cases={} nontrivial={} bound=<=5-of-10-fragments", cases, nontrivial);
 }
